@@ -90,6 +90,25 @@ func (ex *executor) callEffects(cc *ssa.CallCommon) callEff {
 		if c != nil && (c.Pure || (c.HasAssigns && !c.AssignsAll && len(c.Assigns) == 0)) {
 			return eff
 		}
+		if c != nil && c.HasAssigns && !c.AssignsAll {
+			sig := cc.Method.Type().(*types.Signature)
+			names := []string{"recv"}
+			ptypes := []types.Type{cc.Value.Type()}
+			for i := 0; i < sig.Params().Len(); i++ {
+				n := sig.Params().At(i).Name()
+				if n == "" {
+					n = fmt.Sprintf("arg%d", i)
+				}
+				names = append(names, n)
+				ptypes = append(ptypes, sig.Params().At(i).Type())
+			}
+			if cls := ex.assignClassesFor(c, names, ptypes); cls != nil {
+				for _, cn := range cls {
+					eff.classes[cn] = true
+				}
+				return eff
+			}
+		}
 		eff.all = true
 		return eff
 	}
@@ -629,6 +648,9 @@ func (ex *executor) doReturn(st *state, ret *ssa.Return) {
 	if c.HasAssigns && !c.AssignsAll {
 		ex.frameObligations(st, env, sfx, ret.Pos())
 	}
+	// vacuity guard: this return must be reachable under all assumptions made on the way
+	co := ex.addObligation(st, "vacuity", "return reachable"+sfx, False, ret.Pos())
+	co.Cover = true
 	st.dead = true
 }
 
@@ -648,6 +670,9 @@ func (ex *executor) frameObligations(st *state, env *specEnv, sfx string, pos to
 	alloc0 := ex.entry.alloc
 	var goals []*Term
 	for name, h := range st.heaps {
+		if name == verClassName || strings.HasPrefix(name, "R:") {
+			continue
+		}
 		cls := ex.eng.classes[name]
 		h0 := ex.heapOf(ex.entry, cls)
 		if h0 == h {
@@ -837,6 +862,11 @@ func (ex *executor) builtinAppend(st *state, in ssa.Instruction, cc *ssa.CallCom
 			st.heaps[c.Name] = HeapIte(inPlace, hin, h2)
 		}
 	}
+	for _, c := range cs {
+		if c.Name == byteClassName {
+			ex.bumpVer(st, arr)
+		}
+	}
 	res := valueIte(inPlace,
 		Value{T: rt, C: []*Term{arr, off, newLen, cp}},
 		Value{T: rt, C: []*Term{fresh, BVI(0, 64), newLen, newCap}})
@@ -859,15 +889,32 @@ func (ex *executor) builtinCopy(st *state, in ssa.Instruction, cc *ssa.CallCommo
 				return And(Eq(key[0], a), BVCmp("bvsle", o, key[1]), BVCmp("bvslt", key[1], BVBin("bvadd", o, nn)))
 			})
 		}
+		for _, c := range cs {
+			if c.Name == byteClassName {
+				ex.bumpVer(st, d.C[0])
+			}
+		}
 		return Value{T: rt, C: []*Term{n}}
 	}
 	if len(s.C) != 4 {
 		s = zeroValue(cc.Args[0].Type())
 	}
 	n := Ite(BVCmp("bvslt", d.C[2], s.C[2]), d.C[2], s.C[2])
+	var srcStr *Term
+	if len(cs) == 1 && cs[0].Name == byteClassName {
+		srcStr = ex.stringOfBytes(st, s)
+	}
 	for _, c := range cs {
 		h := ex.heapOf(st, c)
 		st.heaps[c.Name] = copyHeap(h, h, d.C[0], d.C[1], n, s.C[0], s.C[1])
+		if c.Name == byteClassName {
+			ex.bumpVer(st, d.C[0])
+		}
+	}
+	if srcStr != nil {
+		// a full-length copy makes the destination read as the same byte string
+		full := And(Eq(n, d.C[2]), Eq(n, s.C[2]), Not(Eq(d.C[0], s.C[0])))
+		ex.assume(st, Implies(full, Eq(ex.stringOfBytes(st, d), srcStr)))
 	}
 	return Value{T: rt, C: []*Term{n}}
 }
